@@ -44,6 +44,15 @@ func (i *IRCServer) cmdServerNick(s *Session, reply *Replyctx, msg *irc.Message)
 	// contains the server_NICK command we’re processing.
 	i.createSessionLocked(id, "", s.LastActivity)
 	ss := i.sessions[id]
+	if ss == nil {
+		// createSessionLocked failed, e.g. because MaxSessions is reached.
+		i.sendServices(reply, &irc.Message{
+			Prefix:  i.ServerPrefix,
+			Command: irc.NOTICE,
+			Params:  []string{s.ircPrefix.Name, "Cannot introduce " + msg.Params[0] + ": " + ErrSessionLimitReached.Error()},
+		})
+		return
+	}
 	ss.Nick = msg.Params[0]
 	i.nicks[NickToLower(ss.Nick)] = ss
 	ss.Username = msg.Params[3]
